@@ -477,7 +477,17 @@ def r6_waiters_and_timers(ctx):
         ctx.check(R, "timer-on-%s" % proto, ok, "a timer is installed on the %s sub-builder of the one connection builder before any connection is served: %s" % (proto, ok), co)
 
 
-RULES = [("C17.R6", r6_waiters_and_timers), ("C17.R3b", r3b_worker_lives_with_handler), ("C17.R1", r1_close_order), ("C17.R2", r2_server_task), ("C17.R3", r3_join_waits), ("C17.R4", r4_shared_result), ("C17.R5", r5_listener_owned)]
+def r8_accept_loops_wait_only_in_the_select(ctx):
+    """`when shutdown is requested the server stops accepting`: between connections the server task waits in the select! that polls the
+    close receiver and nowhere else, so a requested shutdown is always seen.  This is C18.R2, re-evaluated here (adversary change C17-L:
+    a connection-slot semaphore was acquired at the top of each loop iteration, outside the select!; with all slots taken by idle
+    keep-alive connections close() never returned)."""
+    from . import c18
+    from .lib_c01 import Renamed
+    c18.r2_isolation(Renamed(ctx, "C17.R8", "the accept loops await nothing but their select! (which polls the close receiver): no other wait can postpone a requested shutdown"))
+
+
+RULES = [("C17.R8", r8_accept_loops_wait_only_in_the_select), ("C17.R6", r6_waiters_and_timers), ("C17.R3b", r3b_worker_lives_with_handler), ("C17.R1", r1_close_order), ("C17.R2", r2_server_task), ("C17.R3", r3_join_waits), ("C17.R4", r4_shared_result), ("C17.R5", r5_listener_owned)]
 
 _S = "dropshot/src/server.rs"
 _I32 = " " * 32
